@@ -326,7 +326,21 @@ func (n *Net) respond(x *Exchange, req *http.Request, reqBody []byte, f Fault) (
 	case FStatus:
 		status = f.Param % 1000
 		b.data = []byte("error")
-		if f.Param >= 1000 {
+		// a hint some servers and CDNs attach to an error answer (ten
+		// thousands digit of the parameter)
+		switch f.Param / 10000 {
+		case 1:
+			hdr.Set("Retry-After", "1")
+		case 2:
+			hdr.Set("Retry-After", "86400")
+		case 3:
+			hdr.Set("Retry-After", now.Add(2*time.Second).UTC().Format(http.TimeFormat))
+		case 4:
+			hdr.Set("Retry-After", now.Add(10*365*24*time.Hour).UTC().Format(http.TimeFormat))
+		case 5:
+			hdr.Set("Retry-After", now.Add(-time.Hour).UTC().Format(http.TimeFormat))
+		}
+		if (f.Param/1000)%10 == 1 {
 			// an error page that never ends (a conforming client does not
 			// need the body of a non-200 answer at all)
 			b.data = nil
